@@ -233,6 +233,10 @@ class Ctx:
         self.build_log = ""
         self.known = load_known_findings(prop)
         self.traces_validated = 0
+        try:
+            os.unlink(os.path.join(VERIF, "replays", "%s-%s-%d.json" % (prop, tier, seed)))
+        except OSError:
+            pass
 
     # ---- generation helpers
     def rng(self, name=""):
